@@ -31,13 +31,9 @@ void operator delete[](void* p, std::size_t) noexcept { if (p) { --g_live; std::
 static bool g_leakReported = false;
 static int g_errs = 0, g_line = 0;
 static int onError(int line, const char*) { ++g_errs; g_line = line; return 1; }
+static const Case* g_case = 0; // the case being run (the order of the option builder calls is derived from it)
 static Potassco::SmodelsInput::Options smOpts(ll o) {
-	Potassco::SmodelsInput::Options opts;
-	if (o & 1) opts.enableClaspExt();
-	if (o & 2) opts.convertEdges();
-	if (o & 4) opts.convertHeuristic();
-	if (o & 8) opts.dropConverted();
-	return opts;
+	return reuse::smodelsOptions(*g_case, (o & 1) != 0, (o & 2) != 0, (o & 4) != 0, (o & 8) != 0);
 }
 static std::string slurp(const std::string& path) {
 	std::ifstream f(path.c_str(), std::ios::binary);
@@ -71,6 +67,7 @@ int main() {
 	Case c; Obs o;
 	{ std::istringstream warm("asp 1 0 0\n0\n"); Obs r0; Recorder r(r0); Potassco::readAspif(warm, r, &onError); }
 	while (readCase(c)) {
+		g_case = &c;
 		const bool primed = reuse::primed(c);
 		ll mode = c.next(), opts = c.next(); size_t len = (size_t)c.next();
 		std::string in = c.bytes(len);
